@@ -399,6 +399,18 @@ def _from_demes(gid, sampled_demes, sample_sizes, pts, sample_times=None, Ne=Non
     return dadi.Spectrum.from_demes(g, sampled_demes=sampled_demes, sample_sizes=sample_sizes, pts=pts, **kw)
 
 
+def _file_graph(name):
+    def load():
+        import demes, dadi, os
+        root = os.path.dirname(os.path.dirname(os.path.abspath(dadi.__file__)))
+        return demes.load(os.path.join(root, 'tests', 'demes', name + '.yaml'))
+    return load
+
+
+for _n in ('gutenkunst_ooa', 'browning_america', 'offshoots', 'bottleneck', 'two_epoch', 'cloning_example'):
+    GRAPHS['file:' + _n] = _file_graph(_n)
+
+
 def _b():
     import demes
     return demes.Builder(time_units='generations')
